@@ -607,7 +607,7 @@ TABLE = [
     (IC + "one_or_set::OneOrSet::new_set", "Option::expect", 1, "RULE", ["C19-R4"], "the model check of C19-R4 evaluates this function on 0..3 elements in every key-equality world and reports any path that panics"),
     (IC + "one_or_set::OneOrSet::map", "Option::expect", 1, "RULE", ["C19-R4"], "the model check of C19-R4 evaluates this function on 0..3 elements in every key-equality world and reports any path that panics"),
     (IC + "one_or_set::OneOrSet::try_map", "Option::expect", 1, "RULE", ["C19-R4"], "the model check of C19-R4 evaluates this function on 0..3 elements in every key-equality world and reports any path that panics"),
-    (IC + "one_or_set::OneOrSet::append", "panic!", 1, "GUARD", "replace-rematch", ""),
+    (IC + "one_or_set::OneOrSet::append", "panic!", 1, "RULE", ["C19-R4"], "the model check of C19-R4 evaluates append on One and on sets of 2..3 elements with a fresh and with a present key, in every key-equality world, and reports any path that panics (the unreachable arm after mem::replace is never entered, however the function is laid out)"),
     ("<" + IC + "one_or_set::OneOrSetIter as core::iter::traits::iterator::Iterator>::next", "Overflow(Add)", 1, "REVIEWED", None,
      "the counter grows by one per `next` call; 2^64 calls are not reachable"),
     ("<" + IC + "one_or_set::OneOrSetIter as core::iter::traits::iterator::Iterator>::next", "Overflow(Sub)", 1, "REVIEWED", None,
